@@ -1,12 +1,162 @@
 /-
 ArtModel.Ops.Params — protocol handler(s) for the `params` operation family.
 Core Lean only.  `none` = malformed line (the driver prints `bad-op`).
+
+  params table
+      → the Lean class table, one entry per elementary class, joined by ` | `:
+        Name(arg,…){default=val,…}[has:k;rng:k:<lo>:<hi>;float:k;nd:k;…]
+        with <lo> = `0<=` / `0<` / `` and <hi> = `<=1` / `<1` / ``
+  params run <Class> <kw> ; <cmd> ; <cmd> …
+      cmd = set <kw> | get | attr <k> | setattr <k>=<v>
+      → one result per command (first = the constructor), joined by ` ; `
+        new      ok:<store> | error:<kind>
+        set      ok:<store> | error:<kind>:<store>      (store AFTER the call: F25)
+        get      <store>
+        attr     <val> | error:attr
+        setattr  ok:<store>
+  params own <copy 0|1> <X> <i> <row>
+      → before=<W> after=<W>: one category per row of X, then `X[i,:] = row`
+  params partition <key>   → base|sub   (`-` when there is no `__`)
+
+  <kw> = `k=v,k=v` or `-`;  values: f<rat> float, i<int> int, a<r:r:…> ndarray,
+  l<r:r:…> list, m<nat> estimator reference, n None.
 -/
 import ArtModel.Driver
+import ArtModel.Params
 
 namespace Art.Ops
 
+open Art.Params Art.Drv
+
+def parseRats (s : String) : Option (List Rat) :=
+  if s == "" then some [] else (s.splitOn ":").mapM parseRat
+
+def parseVal (s : String) : Option Val :=
+  match s.toList with
+  | 'f' :: r => (parseRat (String.ofList r)).map Val.flt
+  | 'i' :: r => ((String.ofList r).toInt?).map Val.int
+  | 'a' :: r => (parseRats (String.ofList r)).map Val.arr
+  | 'l' :: r => (parseRats (String.ofList r)).map Val.lst
+  | 'm' :: r => ((String.ofList r).toNat?).map Val.mod
+  | ['n'] => some Val.non
+  | _ => none
+
+def showRats (l : List Rat) : String := ":".intercalate (l.map showRat)
+
+def showVal : Val → String
+  | .flt q => "f" ++ showRat q
+  | .int i => "i" ++ toString i
+  | .arr l => "a" ++ showRats l
+  | .lst l => "l" ++ showRats l
+  | .mod id => "m" ++ toString id
+  | .non => "n"
+
+def parseKw (s : String) : Option Store :=
+  (splitList s).mapM (fun t =>
+    match t.splitOn "=" with
+    | [k, v] => (parseVal v).map (fun v => (k, v))
+    | _ => none)
+
+def showStore (p : Store) : String :=
+  if p.isEmpty then "-" else ",".intercalate (p.map (fun kv => kv.1 ++ "=" ++ showVal kv.2))
+
+def showErr : Err → String
+  | .value => "value" | .assert => "assert" | .type => "type" | .attr => "attr" | .key => "key"
+
+def showBoundLo : Option Bound → String
+  | none => ""
+  | some b => toString b.v ++ (if b.strict then "<" else "<=")
+
+def showBoundHi : Option Bound → String
+  | none => ""
+  | some b => (if b.strict then "<" else "<=") ++ toString b.v
+
+def showCheck : Check → String
+  | .has k => "has:" ++ k
+  | .range k lo hi => "rng:" ++ k ++ ":" ++ showBoundLo lo ++ ":" ++ showBoundHi hi
+  | .isFloat k => "float:" ++ k
+  | .isArr k => "nd:" ++ k
+
+def showClass (c : ClassSpec) : String :=
+  c.name ++ "(" ++ ",".intercalate c.args ++ "){" ++
+    ",".intercalate (c.defaults.map (fun kv => kv.1 ++ "=" ++ showVal kv.2)) ++ "}[" ++
+    ";".intercalate (c.checks.map showCheck) ++ "]"
+
+/-- one command on a live object -/
+def runCmd (c : ClassSpec) (e : Est) (cmd : String) : Option (Est × String) :=
+  match cmd.splitOn " " with
+  | ["get"] => some (e, showStore (getParams e))
+  | ["set", kw] => do
+    let kvs ← parseKw kw
+    let r := setParams c.checks e kvs
+    match r.err with
+    | none => some (r.est, "ok:" ++ showStore r.est.params)
+    | some err => some (r.est, "error:" ++ showErr err ++ ":" ++ showStore r.est.params)
+  | ["attr", k] =>
+    match getAttr e k with
+    | .ok v => some (e, showVal v)
+    | .error err => some (e, "error:" ++ showErr err)
+  | ["setattr", kv] => do
+    match ← parseKw kv with
+    | [(k, v)] =>
+      let e' := setAttr e k v
+      some (e', "ok:" ++ showStore e'.params)
+    | _ => none
+  | _ => none
+
+def runCmds (c : ClassSpec) : Option Est → List String → Option (List String)
+  | _, [] => some []
+  | none, _ :: cs => do
+    let r ← runCmds c none cs
+    some ("-" :: r)
+  | some e, cmd :: cs => do
+    let (e', out) ← runCmd c e cmd
+    let r ← runCmds c (some e') cs
+    some (out :: r)
+
+def opRun (line : String) : Option String := do
+  match line.splitOn " ; " with
+  | [] => none
+  | hd :: cmds =>
+    match hd.splitOn " " with
+    | [cls, kw] =>
+      let c ← findClass cls
+      let kw ← parseKw kw
+      match construct c kw with
+      | .ok e =>
+        let outs ← runCmds c (some e) cmds
+        some (" ; ".intercalate (("ok:" ++ showStore e.params) :: outs))
+      | .error err =>
+        let outs ← runCmds c none cmds
+        some (" ; ".intercalate (("error:" ++ showErr err) :: outs))
+    | _ => none
+
+def showObs (o : List (Option (List Rat))) : String :=
+  if o.isEmpty then "-" else "|".intercalate (o.map (fun
+    | some v => showVec v
+    | none => "?"))
+
+def opOwn (a : List String) : Option String := do
+  match a with
+  | [copy, xs, i, row] =>
+    let copy ← parseBool copy
+    let X ← parseMat (α := Rat) xs
+    let i ← i.toNat?
+    let row ← parseVec (α := Rat) row
+    let h : Heap := [X]
+    let W := commitRows copy h 0 X.length
+    some s!"before={showObs (observe h W)} after={showObs (observe (h.mutateRow 0 i row) W)}"
+  | _ => none
+
 /-- handler for lines starting with `params `; `a` = the remaining space-separated fields -/
-def params (_a : List String) : Option String := none
+def params (a : List String) : Option String :=
+  match a with
+  | ["table"] => some (" | ".intercalate (classTable.map showClass))
+  | "run" :: rest => opRun (" ".intercalate rest)
+  | "own" :: rest => opOwn rest
+  | ["partition", k] =>
+    let r := partitionKey k
+    some (r.1 ++ "|" ++ r.2.getD "-")
+  | _ => none
 
 end Art.Ops
